@@ -354,6 +354,7 @@ fn bounds(p: P, tier: Tier) -> Bounds {
         extra_indent: true,
         blank: true,
         rich: p == P::C14,
+        short_unwrap: true,
     };
     match tier {
         Tier::Quick => Bounds {
@@ -486,6 +487,7 @@ pub fn run(r: &Report, p: P) {
                                 unit: "  ",
                                 tag_ids: false,
                                 final_newline,
+                                plain: false,
                             },
                         );
                         if pi == 0 && final_newline {
